@@ -1,7 +1,7 @@
 #!/bin/bash
 # Runs the repository's own test suite (guard off: /verif adds no hooks to /repo) and compares
 # the passing set with the 207 stable tests of /root/.vp/BASELINE.json.
-cd /repo || exit 2
+cd "${VERIF_BASELINE_REPO:-/repo}" || exit 2
 OUT=$(mktemp /var/tmp/gverif_baseline.XXXXXX)
 CARGO_NET_OFFLINE=true cargo test --workspace --no-fail-fast --offline --lib --tests > "$OUT" 2>&1
 python3 - "$OUT" <<'PY'
